@@ -607,6 +607,8 @@ type fault struct {
 	Kind  string `json:"kind"`  // kill | term | freeze | cutrelay | resetrelay | blackhole | loseanswer | delayanswer | newproxy | freezeclient
 	Proxy int    `json:"proxy"` // index among live proxies (mod)
 	DurMs int    `json:"dur_ms,omitempty"`
+	// AtUpBytes: additionally, not before the bridge has verified this many upstream bytes
+	AtUpBytes int64 `json:"at_up_bytes,omitempty"`
 }
 
 type sysCase struct {
@@ -832,6 +834,18 @@ func runSysOnce(_ *testing.T, c sysCase, stall time.Duration) error {
 				return
 			case <-time.After(time.Until(start.Add(time.Duration(f.AtMs) * time.Millisecond))):
 			}
+			if f.AtUpBytes > 0 {
+				// byte-triggered: wait until the bridge has verified that many upstream bytes (the fault then
+				// falls mid-stream whatever the machine's speed), at most 60 s
+				lim := time.Now().Add(60 * time.Second)
+				for r.UpGot(c.S.Label) < f.AtUpBytes && time.Now().Before(lim) {
+					select {
+					case <-stop:
+						return
+					case <-time.After(2 * time.Millisecond):
+					}
+				}
+			}
 			live := e.alive()
 			switch f.Kind {
 			case "kill", "term", "freeze":
@@ -967,6 +981,15 @@ func TestVerifC01System(t *testing.T) {
 			c.S.DownSize = int64(rapid.SampledFrom([]int{2 << 20, 6 << 20}).Draw(rt, "stalldown"))
 			c.Faults = append(c.Faults, fault{AtMs: rapid.SampledFrom([]int{300, 1500}).Draw(rt, "stallat"), Kind: "freezeclient", DurMs: rapid.SampledFrom([]int{7000, 12000}).Draw(rt, "stalldur")})
 		}
+		if sysPurpose == "" && len(c.Faults) == 0 && rapid.IntRange(0, 9).Draw(rt, "silentproxy") == 0 {
+			// scenario family "silent proxy": mid-stream (byte-triggered) the carrying proxy's path to the bridge
+			// goes silent while the proxy itself stays alive and reachable - only the client's own staleness
+			// detection can move the stream to another proxy
+			c.PreFault, nf = "", rapid.IntRange(0, 1).Draw(rt, "extrafaults2")
+			c.S.UpSize = 2 << 20
+			c.S.DownSize = int64(rapid.SampledFrom([]int{2 << 20, 6 << 20}).Draw(rt, "silentdown"))
+			c.Faults = append(c.Faults, fault{Kind: "blackhole", AtUpBytes: rapid.Int64Range(100000, 1500000).Draw(rt, "silentat")})
+		}
 		at := 0
 		if len(c.Faults) > 0 {
 			at = c.Faults[0].AtMs
@@ -986,6 +1009,9 @@ func TestVerifC01System(t *testing.T) {
 			}
 			if f.Kind == "freezeclient" {
 				f.DurMs = rapid.SampledFrom([]int{2000, 7000, 12000}).Draw(rt, "clientfreeze")
+			}
+			if c.S.UpSize >= 300000 && rapid.IntRange(0, 2).Draw(rt, "bytetrigger") == 0 {
+				f.AtUpBytes = rapid.Int64Range(1, c.S.UpSize*3/4).Draw(rt, "atupbytes")
 			}
 			c.Faults = append(c.Faults, f)
 		}
